@@ -87,6 +87,12 @@ func (e *establishedLink) acceptStreamPump(ctx context.Context) {
 		// the directive is shared by all links with the peer: keep it if there is another.
 		var hasOtherLink bool
 		ctrl.bcast.HoldLock(func(broadcast func(), getWaitCh func() <-chan struct{}) {
+			// the link is closed: drop it from the registry if it is still there
+			// (its loss may have been reported before it was registered).
+			if el, ok := ctrl.links[lnk.GetUUID()]; ok && el == e {
+				ctrl.flushEstablishedLink(e, false)
+				broadcast()
+			}
 			for _, plnk := range ctrl.linksByPeerID[lnk.GetRemotePeer()] {
 				if plnk != e {
 					hasOtherLink = true
